@@ -51,6 +51,32 @@ def _consts(c):
 # input generation: valid datagrams of every template, and the broken classes
 # ----------------------------------------------------------------------------------------
 
+REACTIVE_NAMES = ("RegionHandshake", "AgentMovementComplete", "AgentDataUpdate", "PacketAck", "StartPingCheck",
+                  "CompletePingCheck", "ChatFromViewer", "ChatFromSimulator", "UseCircuitCode", "RegionHandshakeReply",
+                  "CompleteAgentMovement", "AgentUpdate", "LogoutRequest", "LogoutReply", "KickUser", "TeleportStart",
+                  "TeleportProgress", "TeleportLocal", "EnableSimulator", "ConfirmEnableSimulator")
+
+
+def _subscribed_names():
+    """Message names the proxy's own session / region handlers subscribe to (reflection over the public
+    `handlers` maps of a freshly created session; nothing found is no failure, just a smaller set)."""
+    names = set()
+    try:
+        sm = _session_manager()
+        from hippolyzer.lib.base.datatypes import UUID
+        se = sm.create_session({"session_id": str(UUID.random()), "secure_session_id": str(UUID.random()),
+                                "agent_id": str(UUID.random()), "circuit_code": 1, "sim_ip": "127.0.0.1", "sim_port": 1,
+                                "region_x": 1, "region_y": 1, "seed_capability": "https://example/seed"})
+        try:
+            for mh in [se.message_handler] + [r.message_handler for r in se.regions]:
+                names |= {k for k in getattr(mh, "handlers", {}) if isinstance(k, str) and k != "*"}
+        finally:
+            sm.close_session(se)
+    except Exception:
+        pass
+    return names
+
+
 def _rand_val(rng, var):
     from hippolyzer.lib.base.datatypes import UUID
     from hippolyzer.lib.base.message.msgtypes import MsgType as T
@@ -139,6 +165,8 @@ class Pool:
                     flags = 0
                     if rng.random() < 0.4:
                         flags |= PacketFlags.RELIABLE
+                        if rng.random() < 0.3:
+                            flags |= PacketFlags.RESENT
                     if (tmpl.encoding is not None and int(tmpl.encoding) == 1) or rng.random() < 0.15:
                         flags |= PacketFlags.ZEROCODED
                     acks = ()
@@ -172,6 +200,11 @@ class Pool:
                         if (v >= 0 and last is not None and last.type not in (MsgType.MVT_VARIABLE,) and last.size >= 2
                                 and not (flags & (PacketFlags.ZEROCODED | PacketFlags.ACK))):
                             self.badbody[dkey].append((name, data[:-1]))
+        # messages the proxy itself reacts to on the forwarding path: the ones lludp_proxy.py / proxy/circuit.py /
+        # AddonManager name, plus whatever the session- and region-level message handlers subscribe to
+        reactive = set(REACTIVE_NAMES) | _subscribed_names()
+        self.reactive = {k: [e for e in self.msgs[k] if e[0].split("/")[0] in reactive] for k in ("C", "H")}
+        self.n_reactive = len({e[0].split("/")[0] for k in ("C", "H") for e in self.reactive[k]})
         # message numbers no template has
         self.unknown_nums = []
         for freq, prefix, width, rng_n in (("High", b"", 1, range(1, 255)), ("Medium", b"\xff", 1, range(1, 255)),
@@ -514,7 +547,12 @@ class World:
             return "UseCircuitCode", _with_pid(pool.ucc(rng, sid, aid, code), self._next_pid())
         if k in LLUDP_BAD:
             return k, pool.broken(rng, k)
-        if k in KILL_KINDS:
+        if k in ("rhs", "amc"):
+            want = "RegionHandshake" if k == "rhs" else "AgentMovementComplete"
+            src = [x for x in pool.msgs[dkey] if x[0].split("/")[0] == want]
+        elif k == "rmsg":
+            src = pool.reactive[dkey]
+        elif k in KILL_KINDS:
             src = [x for x in pool.kills[dkey] if x[0].split("/")[0] == KILL_KINDS[k]]
         else:
             src = {"banned": pool.banned, "badbody": pool.badbody}.get(k, pool.msgs)[dkey]
@@ -883,8 +921,10 @@ def _features(f):
     act = f["act"]
     feat = {"kind": "b1", "clause": m["clause"], "what": m["what"], "act": act["n"], "k": act["k"],
             "after_self_addressed": f["after_self_addressed"]}
-    if act["k"] in ("msg", "killc", "killd", "banned", "badbody", "ucc") and not f["after_self_addressed"]:
+    if act["k"] in ("msg", "rmsg", "rhs", "amc", "killc", "killd", "banned", "badbody", "ucc") and not f["after_self_addressed"]:
         feat["msg"] = f["label"]
+    if m.get("raised"):
+        feat["escaped"] = str(m["raised"]).split(":")[0]     # the exception that escaped datagram_received
     return feat
 
 
@@ -933,7 +973,7 @@ def _b1(chk: Check, consts, label, layouts=(0, 1)):
     used = set()
     for r in results:
         used |= r[2]
-    names = {u[2] for u in used if u[1] in ("msg", "killc", "killd", "banned", "ucc")}
+    names = {u[2] for u in used if u[1] in ("msg", "rmsg", "rhs", "amc", "killc", "killd", "banned", "ucc")}
     chk.cov["b1_message_labels_used"] = max(chk.cov.get("b1_message_labels_used", 0), len(names))
     for e in g.edges:
         if e["obs"]["sends"] or e["src"] != e["dst"]:
@@ -1087,7 +1127,7 @@ def _walk(pool: Pool, seed, NA, NS, NH, length):
             elif not has_circ and rng.random() < 0.7:
                 k = "ucc"
             else:
-                k = rng.choice(["msg"] * 12 + ["ucc", "ucc", rng.choice(["killc", "killd"])])
+                k = rng.choice(["msg"] * 9 + ["rmsg"] * 3 + ["ucc", "ucc", rng.choice(["killc", "killd"])])
             s = 0
             if k == "ucc":
                 # a viewer names its own session once it holds one (value read from the real object)
@@ -1116,7 +1156,7 @@ def _walk(pool: Pool, seed, NA, NS, NH, length):
                 stats["discards"] += 1
         else:
             k = rng.choice(LLUDP_BAD + ("badbody", "banned", "spoof")) if rng.random() < p_garbage \
-                else rng.choice(["msg"] * 15 + [rng.choice(["killc", "killd"]), "ucc"])
+                else rng.choice(["msg"] * 9 + ["rmsg"] * 3 + ["rhs", "rhs", "amc"] + [rng.choice(["killc", "killd"]), "ucc"])
             s = 0
             if k == "spoof" and unk["ip"] == clients[a - 1]["ip"]:
                 k = "unkmsg"
@@ -1256,7 +1296,7 @@ def _churn_walk(pool: Pool, seed, NA, NS, NH, n_far):
             viewer(a, dgram, k, s if k == "ucc" else 0, label)
             done += 1
         elif c < 0.92:
-            far(a, sims[rng.choice(hs) - 1], rng.choice(["msg"] * 8 + ["ucc", "badbody"]))
+            far(a, sims[rng.choice(hs) - 1], rng.choice(["msg"] * 5 + ["rmsg", "rmsg", "rhs", "amc", "ucc", "badbody"]))
         elif c < 0.95 and strangers:
             far(a, rng.choice(strangers), rng.choice(["msg", "msg", "unkmsg"]))     # a stranger the viewer once wrote to
         elif c < 0.97 and len(live) > 1:
@@ -1333,6 +1373,8 @@ def _b2(chk: Check, n_walks, length, label, churn=()):
                         "after_self_addressed": ex["ev"] == "C" and first is not None and first < int(parts[3])}
                 if not feat["after_self_addressed"]:
                     feat["msg"] = parts[2]
+                if ex.get("raised"):
+                    feat["escaped"] = str(ex["raised"]).split(":")[0]
                 if res[tid][1].get("churn"):
                     feat["churn"] = True     # an address-churn run: many distinct far addresses were written to before
             if common.skey(feat) in seen:
@@ -1392,21 +1434,27 @@ def run(chk: Check):
     ]
     quick = chk.tier == "quick"
     _POOL = Pool(random.Random(chk.seed * 7 + 6), 1 if quick else 3)
-    chk.cov["pool"] = {"templates": _POOL.n_templates, "valid_out": len(_POOL.msgs["C"]), "valid_in": len(_POOL.msgs["H"]),
+    chk.cov["pool"] = {"reactive_message_types": _POOL.n_reactive, "templates": _POOL.n_templates, "valid_out": len(_POOL.msgs["C"]), "valid_in": len(_POOL.msgs["H"]),
                        "banned": len(_POOL.banned["H"]), "excluded": _POOL.excluded[:20]}
     if quick:
         _b1(chk, dict(NA=2, NS=2, NH=2, Dyn="TRUE", NG=2, Tcp="FALSE", GMode="addr"), "2x2x2", layouts="alternate")
         _b1(chk, dict(NA=1, NS=1, NH=3, Dyn="TRUE", NG=2, Tcp="FALSE", GMode="any"), "1x1x3-2handles", layouts="alternate")
         _b1(chk, dict(NA=2, NS=2, NH=1, Dyn="TRUE", NG=1, Tcp="TRUE", GMode="addr"), "2x2x1-control", layouts="alternate")
+        _b1(chk, dict(NA=1, NS=1, NH=2, Dyn="TRUE", NG=1, Tcp="FALSE", GMode="any0"), "1x1x2-nohandle")
         _b2(chk, 48, 120, "rand", churn=[150, 300, 300, 450])
     else:
         _b1(chk, dict(NA=2, NS=2, NH=2, Dyn="TRUE", NG=2, Tcp="FALSE", GMode="addr"), "2x2x2")
         _b1(chk, dict(NA=1, NS=1, NH=3, Dyn="TRUE", NG=2, Tcp="FALSE", GMode="any0"), "1x1x3-2handles")
         _b1(chk, dict(NA=2, NS=2, NH=1, Dyn="TRUE", NG=1, Tcp="TRUE", GMode="addr"), "2x2x1-control")
+        _b1(chk, dict(NA=1, NS=1, NH=2, Dyn="TRUE", NG=1, Tcp="FALSE", GMode="any0"), "1x1x2-nohandle")
         _b1(chk, dict(NA=2, NS=2, NH=2, Dyn="FALSE", NG=2, Tcp="TRUE", GMode="addr"), "2x2x2-control", layouts="alternate")
         # (2 sessions x 2 handles x 2 addresses, GMode "any", is 6417 states / 1.3M edges: checked by hand, green,
         #  too slow for the 15 minute budget on a loaded machine; B2 walks mix 2 sessions and 2 handles at random)
-        _b1(chk, dict(NA=2, NS=2, NH=3, Dyn="TRUE", NG=3, Tcp="FALSE", GMode="addr"), "2x2x3", layouts="alternate")
+        # three addresses: two viewers on one session's regions, one viewer and two sessions sharing them
+        # (2 viewers x 2 sessions x 3 addresses is 5593 states / 1.6M edges: green whenever run by hand, but
+        #  8 minutes on a loaded machine, more than the 15 minute budget allows next to the models above)
+        _b1(chk, dict(NA=2, NS=1, NH=3, Dyn="TRUE", NG=3, Tcp="FALSE", GMode="addr"), "2x1x3")
+        _b1(chk, dict(NA=1, NS=2, NH=3, Dyn="TRUE", NG=3, Tcp="FALSE", GMode="addr"), "1x2x3")
         _b2(chk, 640, 160, "rand", churn=[100, 200, 300, 400, 600, 800] * 6 + [1500, 2500, 4200, 4200])
     chk.cov["exhaustive"] = True
 
